@@ -51,6 +51,67 @@ theorem program_order {σ₀ : Nat → S} {progs : Nat → List (CritOp S L R)} 
       · subst ht; simp only [logOf, upd_same]; exact ih
       · simp only [logOf, upd_other _ _ ht]; exact ih
 
+/-- the log only grows at its end: operations are linearized in the order of their acquisitions and
+an entry never moves -/
+theorem log_prefix {c1 c2 : Config S L R} (hr : Reach c1 c2) : ∃ later, c2.log = c1.log ++ later := by
+  induction hr with
+  | refl => exact ⟨[], by simp⟩
+  | tail _ hs ih =>
+    obtain ⟨later, hl⟩ := ih
+    cases hs with
+    | acq t o todo' hidle htodo hcan => exact ⟨later ++ [(t, o)], by simp [hl]⟩
+    | step t o st rest l hh => exact ⟨later, hl⟩
+    | rel t o l hh => exact ⟨later, hl⟩
+
+/-- a thread inside a critical section has that operation in the log -/
+theorem holding_in_log {σ₀ : Nat → S} {progs : Nat → List (CritOp S L R)} {c : Config S L R}
+    (hr : Reach (Init σ₀ progs) c) (t : Nat) (o : CritOp S L R) (rest : List (MStep S L)) (l : L)
+    (h : (c.threads t).st = .holding o rest l) : (t, o) ∈ c.log := by
+  induction hr generalizing rest l with
+  | refl => simp [Init] at h
+  | tail _ hs ih =>
+    cases hs with
+    | acq t' o' todo' hidle htodo hcan =>
+      by_cases ht : t = t'
+      · subst ht
+        simp only [upd_same] at h
+        cases h
+        simp
+      · simp only [upd_other _ _ ht] at h
+        simp only [List.mem_append]
+        exact Or.inl (ih _ _ h)
+    | step t' o' st rest' l' hh =>
+      by_cases ht : t = t'
+      · subst ht
+        simp only [upd_same] at h
+        cases h
+        exact ih _ _ hh
+      · simp only [upd_other _ _ ht] at h
+        exact ih _ _ h
+    | rel t' o' l' hh =>
+      by_cases ht : t = t'
+      · subst ht
+        simp only [upd_same] at h
+        cases h
+      · simp only [upd_other _ _ ht] at h
+        exact ih _ _ h
+
+/-- **Real-time order**: if operation `a` of thread `t` has reached the end of its critical section at
+`c₁` (its release — hence its response — can only come later than its acquisition), and at some later
+configuration `c₃` thread `u` acquires `b` (its invocation can only be earlier than that), then `a`
+stands before `b` in the linearization order. -/
+theorem real_time_order {σ₀ : Nat → S} {progs : Nat → List (CritOp S L R)} {c₁ c₃ : Config S L R}
+    (hr1 : Reach (Init σ₀ progs) c₁) (t : Nat) (a : CritOp S L R) (l : L)
+    (hrel : (c₁.threads t).st = .holding a [] l)
+    (hr2 : Reach c₁ c₃) (u : Nat) (b : CritOp S L R) :
+    ∃ l1 l2, c₃.log ++ [(u, b)] = l1 ++ (t, a) :: l2 ++ [(u, b)] := by
+  have hin := holding_in_log hr1 t a [] l hrel
+  obtain ⟨later, hl⟩ := log_prefix hr2
+  obtain ⟨l1, l2, hsplit⟩ := List.append_of_mem hin
+  refine ⟨l1, l2 ++ later, ?_⟩
+  rw [hl, hsplit]
+  simp
+
 end Conc
 
 namespace MemStore.Concurrent
